@@ -9,7 +9,7 @@ from vlib import common
 GO = dict(module="extras", pkg="trafficlogger", pkgname="trafficlogger",
           files={"zz_verif_c15_test.go": "c15/c15_test.go", "zz_verif_c15_e2e_test.go": "c15/c15_e2e_test.go"}, run="TestVerifC15")
 PARAMS_NAME = "ParamsC15"
-HEADER = ("From Hy Require Import lib.Harness lib.Lin model.C15_Stats corr.C15_Corr.\n"
+HEADER = ("From Hy Require Import lib.Harness lib.Lin model.C15_Stats model.C15_Sites corr.C15_Corr.\n"
           "From Coq Require Import ZArith String.\nLocal Open Scope string_scope.\nLocal Open Scope N_scope.\nNotation length := List.length (only parsing).\n")
 RULE = ("seeded generator. (a) sequential call sequences (15-45 calls) on the real trafficStatsServerImpl: LogTraffic with boundary byte counts "
         "(0, 1, 2^32, 2^63, 2^64-1), LogOnlineState incl. unpaired offline, ServeHTTP through a ResponseRecorder: GET /traffic with every "
@@ -248,82 +248,195 @@ def gen_lin(rng):
             "rounds": rng.random() < 0.75, "seed": rng.randrange(2**31)}
 
 
+SITES = [("tcp", "up"), ("tcp", "down"), ("udp", "up"), ("udp", "down")]
+TCP_N = [1, 100, 1000, 5000, 40000]
+UDP_N = [1, 16, 100, 500, 1000]  # one datagram, below every path MTU (no fragmentation: one report per datagram)
+
+
+class E2EScript:
+    """builds an e2e script and tracks what the property says must happen (which connections are left, which kicks
+    are pending, which flows can carry a datagram back)"""
+
+    def __init__(self, rng, secret, pool):
+        self.rng, self.secret, self.pool = rng, secret, pool
+        self.steps, self.slots, self.flows = [], {}, {}   # slots: slot -> id; flows: flow -> [slot, kind, has_up]
+        self.nslot = self.nflow = 0
+        self.pending = set()
+
+    def connect(self, i):
+        self.steps.append({"a": "connect", "slot": self.nslot, "id": i})
+        self.slots[self.nslot] = i
+        self.nslot += 1
+        return self.nslot - 1
+
+    def reject(self):
+        self.steps.append({"a": "reject", "slot": 99, "id": 0})
+
+    def drop(self, s):
+        del self.slots[s]
+        for f in [f for f, v in self.flows.items() if v[0] == s]:
+            del self.flows[f]
+
+    def close(self, s):
+        self.steps.append({"a": "close", "slot": s})
+        self.drop(s)
+
+    def kick(self, i, twice=False):
+        for _ in range(2 if twice else 1):
+            self.steps.append({"a": "kick", "id": i})   # a second kick collapses with the first
+        self.pending.add(i)
+
+    def new_flow(self, s, kind):
+        self.flows[self.nflow] = [s, kind, False]
+        self.nflow += 1
+        return self.nflow - 1
+
+    def move(self, f, d, n=None):
+        """n bytes on flow f in direction d; the report it causes is refused iff a kick of the user is pending"""
+        s, kind, has_up = self.flows[f]
+        assert not (kind == "udp" and d == "down" and not has_up)
+        if n is None:
+            n = self.rng.choice(TCP_N if kind == "tcp" else UDP_N)
+        self.steps.append({"a": kind, "slot": s, "flow": f, "dir": d, "n": n})
+        i = self.slots[s]
+        if i in self.pending:
+            self.pending.discard(i)
+            self.drop(s)      # the refused connection is gone
+            return False
+        if d == "up":
+            self.flows[f][2] = True
+        return True
+
+    def site(self, s, kind, d, established=None):
+        """make the next report of slot s come from site (kind, d), on an established flow or a fresh one.
+        Returns False when that is not possible in the current state."""
+        old = [f for f, v in self.flows.items() if v[0] == s and v[1] == kind and (v[2] or not (kind == "udp" and d == "down"))]
+        if established is None:
+            established = bool(old) and self.rng.random() < 0.5
+        if kind == "udp" and d == "down":
+            established = True
+        if established:
+            if not old:
+                return False
+            self.move(self.rng.choice(old), d)
+        else:
+            self.move(self.new_flow(s, kind), d)
+        return True
+
+    def case(self):
+        return {"k": "e2e", "secret": self.secret, "ids": self.pool, "steps": self.steps}
+
+
+def gen_e2e_directed(rng):
+    """for each of the four report sites, on a flow established before the kick and on one opened after it (a datagram
+    can only come back on an established session): the kicked user's NEXT report is made at that site"""
+    out = []
+    for kind, d in SITES:
+        for established in ([True] if (kind, d) == ("udp", "down") else [False, True]):
+            sc = E2EScript(rng, rng.choice(["", "s3cret"]), ["alice", "bob"])
+            a = sc.connect(0)
+            b = sc.connect(1)
+            a2 = sc.connect(0) if rng.random() < 0.5 else None   # a second connection of the same user
+            if established:
+                f = sc.new_flow(a, kind)
+                sc.move(f, "up")
+                if rng.random() < 0.5:
+                    sc.move(f, "down")
+            fb = sc.new_flow(b, rng.choice(["tcp", "udp"]))
+            sc.move(fb, "up")
+            sc.kick(0, twice=rng.random() < 0.3)
+            sc.move(fb, rng.choice(["up", "down"]))              # another user's traffic does not use the kick up
+            assert sc.site(a, kind, d, established) and a not in sc.slots
+            if a2 is not None:                                    # the kick is used up: the other connection goes on
+                sc.site(a2, *rng.choice(SITES[:3]), established=False)
+            c = sc.connect(0)                                     # and the user may come back
+            sc.site(c, *rng.choice(SITES[:3]), established=False)
+            sc.move(fb, "down")
+            if rng.random() < 0.5:
+                sc.close(b)
+            out.append(sc.case())
+    return out
+
+
 def gen_e2e(rng):
     """script for a real server + real clients over loopback"""
-    secret = rng.choice(["", "s3cret"])
     pool = rng.sample(["alice", "bob", "carol"], rng.randint(1, 3))
+    sc = E2EScript(rng, rng.choice(["", "s3cret"]), pool)
     n = len(pool)
-    steps, slots, nxt = [], {}, 0
-    want_traffic = None  # after a kick, drive a report of that id soon
+    want = None  # after a kick, drive a report of that id soon
     for _ in range(rng.randint(8, 14)):
         r = rng.random()
-        if want_traffic is not None and rng.random() < 0.7:
-            cand = [s for s, i in slots.items() if i == want_traffic]
+        if want is not None and rng.random() < 0.7:
+            cand = [s for s, i in sc.slots.items() if i == want]
             if cand:
-                steps.append({"a": "traffic", "slot": rng.choice(cand), "n": rng.choice([1, 100, 1000, 5000])})
-                # the refused connection is gone
-                del slots[steps[-1]["slot"]]
-                want_traffic = None
-                continue
-        if not slots or r < 0.3:
-            i = rng.randrange(n)
-            steps.append({"a": "connect", "slot": nxt, "id": i})
-            slots[nxt] = i
-            nxt += 1
-        elif r < 0.38:
-            steps.append({"a": "reject", "slot": 99, "id": 0})
-        elif r < 0.55:
-            s = rng.choice(list(slots))
-            steps.append({"a": "close", "slot": s})
-            del slots[s]
+                s = rng.choice(cand)
+                kind, d = rng.choice(SITES)
+                if sc.site(s, kind, d) or sc.site(s, kind, "up"):
+                    want = None
+                    continue
+        if not sc.slots or r < 0.25:
+            sc.connect(rng.randrange(n))
+        elif r < 0.32:
+            sc.reject()
+        elif r < 0.45:
+            sc.close(rng.choice(list(sc.slots)))
         elif r < 0.8:
-            s = rng.choice(list(slots))
-            steps.append({"a": "traffic", "slot": s, "n": rng.choice([1, 100, 1000, 5000, 40000])})
-            if want_traffic == slots[s]:
-                del slots[s]
-                want_traffic = None
+            s = rng.choice(list(sc.slots))
+            i = sc.slots[s]
+            kind, d = rng.choice(SITES)
+            if not sc.site(s, kind, d):
+                sc.site(s, kind, "up")
+            if want == i and i not in sc.pending:
+                want = None
         else:
-            i = rng.choice(list(slots.values()))
-            steps.append({"a": "kick", "id": i})
-            if rng.random() < 0.3:
-                steps.append({"a": "kick", "id": i})  # collapses with the first
-            want_traffic = i
-    return {"k": "e2e", "secret": secret, "ids": pool, "steps": steps}
+            i = rng.choice(list(sc.slots.values()))
+            sc.kick(i, twice=rng.random() < 0.3)
+            want = i
+    return sc.case()
 
 
 def e2e_term(c, o):
+    """the observed run as a list of server events for the world model of model/C15_Sites.v"""
     obs = o.get("obs") or []
     if len(obs) != len(c["steps"]) or any(str(ob.get("result", "")).startswith("error") for ob in obs):
         return None
     sec = c["secret"]
-    G = lambda path: "(rq %s \"GET\" %s \"\" None)" % (cstr(sec), cstr(path))
-    terms, slots = [], {}
+    G = lambda path: "wrq %s \"GET\" %s \"\" None" % (cstr(sec), cstr(path))
+    terms = []
     for st, ob in zip(c["steps"], obs):
         a, res = st["a"], ob["result"]
-        if a == "connect":
-            slots[st["slot"]] = st["id"]
-            terms.append("((COnline %d true),XUnit)" % st["id"])
-        elif a == "close" and st["slot"] in slots:
-            terms.append("((COnline %d false),XUnit)" % slots.pop(st["slot"]))
+        for i in ob.get("ups") or []:
+            terms.append("WE (EAuth %d) WUnit" % i)
+        if a == "close" and res == "ok":
+            terms.append("WE (EClientClose %d) WUnit" % st["slot"])
         elif a == "kick":
-            terms.append("((rq %s \"POST\" \"/kick\" \"\" (Some [%d])),(XHttp 200 BEmpty))" % (cstr(sec), st["id"]))
-        elif a == "traffic" and res in ("ok", "refused"):
-            i = slots[st["slot"]]
-            if res == "ok":
-                terms.append("((CLog %d %d 0),(XBool true))" % (i, st["n"]))
-                terms.append("((CLog %d 0 %d),(XBool true))" % (i, st["n"]))
-            else:
-                terms.append("((CLog %d %d 0),(XBool false))" % (i, st["n"]))
-                terms.append("((COnline %d false),XUnit)" % i)
-                del slots[st["slot"]]
-        terms.append("(%s,(XHttp 200 (BOnline [%s])))" % (G("/online"), ";".join("(%d,(%d)%%Z)" % (m[0], m[1]) for m in ob.get("online") or [])))
-    terms.append("(%s,(XHttp 200 (BStats [%s])))" % (G("/traffic"), ";".join("(%d,(%d,%d))" % (m[0], m[1], m[2]) for m in o.get("final") or [])))
-    return "CSeq %s [\n %s]" % (cstr(sec), ";\n ".join(terms))
+            terms.append("WE (wrq %s \"POST\" \"/kick\" \"\" (Some [%d])) (WHttp 200 BEmpty)" % (cstr(sec), st["id"]))
+        elif a in ("tcp", "udp") and res in ("ok", "refused"):
+            for (_, tx, rx, acc) in ob.get("reports") or []:
+                site = ("Tcp" if a == "tcp" else "Udp") + ("Up" if (tx > 0 or (rx == 0 and st["dir"] == "up")) else "Down")
+                terms.append("WE (EReport %d %s %d false) (WBool %s)" % (st["slot"], site, tx if tx > 0 else rx, "true" if acc else "false"))
+            if ob.get("alive") is not None:
+                terms.append("WAlive %d %s" % (st["slot"], "true" if ob["alive"] else "false"))
+        for _ in ob.get("downs") or []:
+            terms.append("WE (EHandlerReturn %d) WUnit" % st.get("slot", 0))
+        terms.append("WE (%s) (WHttp 200 (BOnline [%s]))" % (G("/online"), ";".join("(%d,(%d)%%Z)" % (m[0], m[1]) for m in ob.get("online") or [])))
+    terms.append("WE (%s) (WHttp 200 (BStats [%s]))" % (G("/traffic"), ";".join("(%d,(%d,%d))" % (m[0], m[1], m[2]) for m in o.get("final") or [])))
+    return "CWorld %s [\n %s]" % (cstr(sec), ";\n ".join(terms))
+
+
+def e2e_refusal_sites(c, o):
+    out = set()
+    for st, ob in zip(c["steps"], o.get("obs") or []):
+        if ob.get("result") == "refused":
+            out.add("%s-%s" % (st["a"], st["dir"]))
+    return sorted(out)
 
 
 def gen(rng, tier):
     scale = 1 if tier == "quick" else 10
     cases = gen_seq_directed(rng)
+    for _ in range(1 if tier == "quick" else 3):
+        cases += gen_e2e_directed(rng)
     for _ in range(10 if tier == "quick" else 60):
         cases.append(gen_e2e(rng))
     for _ in range(160 * scale):
@@ -410,8 +523,8 @@ def klass(c, o):
         ov = o.get("overlap", 0)
         return "lin:overlap=" + ("0" if ov == 0 else "1-5" if ov <= 5 else "6-20" if ov <= 20 else ">20")
     if c["k"] == "e2e":
-        rs = [ob.get("result") for ob in o.get("obs") or []]
-        return "e2e:" + ("refusal" if "refused" in rs else "no-refusal")
+        sites = e2e_refusal_sites(c, o)
+        return "e2e:" + ("refusal@" + "+".join(sites) if sites else "no-refusal")
     return "stress:clears=%s,refused=%s" % ("0" if not o.get("clears") else ">0", "0" if not o.get("refused") else ">0")
 
 
@@ -428,7 +541,7 @@ def nontrivial(c, o):
 def fingerprint(c, o):
     """stable name of the violated clause (one VIOLATION line per clause and case kind)"""
     why = o.get("why") or ""
-    for key, name in (("API secret", "unauthorized-request-served"), ("conservation broken", "conservation"), ("final snapshot", "conservation"), ("proxied", "kick-exactly-once"), ("could not proxy", "kick-exactly-once"), ("LogTraffic(", "kick-exactly-once"), ("kicked", "kick-exactly-once"),
+    for key, name in (("not disconnected", "kick-disconnects"), ("API secret", "unauthorized-request-served"), ("conservation broken", "conservation"), ("final snapshot", "conservation"), ("proxied", "kick-exactly-once"), ("could not proxy", "kick-exactly-once"), ("LogTraffic(", "kick-exactly-once"), ("kicked", "kick-exactly-once"),
                       ("refused", "kick-exactly-once"), ("online", "online-count"), ("panic", "panic"), ("malformed", "malformed-response")):
         if key in why:
             return "C15-%s-%s" % (c["k"], name)
